@@ -61,7 +61,7 @@ Proof. vm_compute. reflexivity. Qed.
 
 (* ---------------------------------------------------------------------- (3) serialize *)
 Definition ex_value : value :=
-  VList [ VInt (-9223372036854775808); VStr [97; 34; 59; 0; 255]; VStr [98]; VNull; VBool true;
+  VList [ VInt (-9223372036854775808); VStr [97; 34; 59; 0; 255]; VStr [98]; VNull; VBool true; VFloat [48; 46; 49];
           VMap [ ([120], VInt 1); ([53], VList []); ([], VMap []) ];
           VList [ VList [ VMap [ ([107], VStr []) ] ] ] ].
 Example ex_serializable : serializable ex_value = true.
@@ -72,12 +72,16 @@ Proof. vm_compute. reflexivity. Qed.
 Example ex_canon_differs : canon ex_value <> ex_value.
 Proof. vm_compute. discriminate. Qed.
 
-(* refuted clauses (known findings, demonstrated on the implementation by the check) *)
-Example serialize_float_refuted : exists v, serialize v = None.
-Proof. exists (VList [VFloat 4609434218613702656]). reflexivity. Qed.
-Example unserialize_whitespace_refuted :
-  exists s, unserialize s = POk VNull /\ parse_strict s = PFail.
-Proof. exists [32; 78; 59; 10]. split; vm_compute; reflexivity. Qed.
+(* floats (fix: 213b73f) and white space (fix: 8f25e10) *)
+Example ex_float_roundtrip :
+  match serialize (VList [VFloat [49; 46; 53]; VFloat [45; 73; 78; 70]]) with Some t => unserialize t | None => PFail end
+  = POk (VList [VFloat [49; 46; 53]; VFloat [45; 73; 78; 70]]).
+Proof. vm_compute. reflexivity. Qed.
+Example ex_float_syntax : float_text_ok [49; 69; 43; 50; 53] = true /\ float_text_ok [46] = false
+                          /\ float_text_ok [49; 101] = false /\ float_text_ok [48; 120; 49] = false.
+Proof. vm_compute. repeat split. Qed.
+Example ex_no_trim : unserialize [32; 78; 59] = PFail /\ unserialize [78; 59; 10] = PFail.
+Proof. split; vm_compute; reflexivity. Qed.
 
 (* repaired defects (fix: 62d4051, 56c7d26, 4093a1a, eb236fa) *)
 Example ex_two_strings :          (* a:2:{i:0;s:1:"a";i:1;s:1:"b";} used to be false *)
